@@ -37,18 +37,63 @@ theorem pressure_net_torque_zero (fx : FX R) (x : Nat → V3 R) (F : List Face) 
   pressure_netTorque fx x F P hc he hs
 
 /-- the pressure force on node `i` is the pressure times the derivative of the enclosed volume with
-    respect to the position of node `i`.  `signedVol6 x F / 6` is the signed volume (`compute_volume`
-    returns its absolute value, `volume_is_abs`); it is affine in each node position, so its derivative
-    is characterised exactly: moving node `i` by ANY vector `d` changes `P·V` by `F_i · d` -/
+    respect to the position of node `i`.  `signedVol6 x F / 6` is the signed volume Σ p₁·(p₂×p₃) / 6 (`compute_volume`
+    returns its absolute value on a closed surface, `volume_is_abs_closed`); it is affine in each node position, so its
+    derivative is characterised exactly: moving node `i` by ANY vector `d` changes `P·V` by `F_i · d` -/
 theorem pressure_is_dV (fx : FX R) (x : Nat → V3 R) (F : List Face) (P : R)
     (hc : Closed F) (hd : NonDeg F) (he : EqbOK fx) (hs : FaceSqrt fx x F) (i : Nat) (d : V3 R) :
     P * ((signedVol6 (Function.update x i (x i + d)) F - signedVol6 x F) / 6)
       = V3.dot (nodeForce (pressureContribs fx x F P) i) d :=
   pressure_nodeForce_dV fx x F P hc hd he hs i d
 
-/-- `compute_volume` (the fold of the model) is the absolute value of the signed volume -/
-theorem volume_is_abs (x : Nat → V3 R) (F : List Face) : cellVolume x F = |signedVol6 x F / 6| :=
+/-- the same statement about the number the code ACTUALLY accumulates: `cellVol6` is the loop of `compute_volume`, with
+    the coordinates taken relative to `get_volume_reference_point()` = the first node of the first used face.  That
+    node moves too when it is node `i` (or not at all otherwise) — its own contribution to the derivative is accounted
+    for by `computed_volume_decomposition`: it is (displacement of the reference node)·(vector area), and the vector
+    area of a closed surface vanishes wherever the nodes are (`vector_area_closed`).  Same hypotheses as `pressure_is_dV`. -/
+theorem pressure_is_dV_computed (fx : FX R) (x : Nat → V3 R) (F : List Face) (P : R)
+    (hc : Closed F) (hd : NonDeg F) (he : EqbOK fx) (hs : FaceSqrt fx x F) (i : Nat) (d : V3 R) :
+    P * ((cellVol6 (Function.update x i (x i + d)) F - cellVol6 x F) / 6)
+      = V3.dot (nodeForce (pressureContribs fx x F P) i) d := by
+  rw [cellVol6_eq, cellVol6_eq, centredVol6_closed _ F hc, centredVol6_closed _ F hc]
+  exact pressure_nodeForce_dV fx x F P hc hd he hs i d
+
+/-- EVERY surface, closed or not: the sum `compute_volume` accumulates is the un-centred sum minus
+    (reference node)·(twice the vector area).  Hence for ANY two configurations `x`, `x'` of the nodes the change of the
+    computed volume is the change of Σ p₁·(p₂×p₃) minus the change of that product — the gradient term of the
+    reference node. -/
+theorem computed_volume_decomposition (x x' : Nat → V3 R) (F : List Face) :
+    cellVol6 x F = signedVol6 x F - V3.dot (vecArea2 x F) (volRefPoint x F) ∧
+    cellVol6 x' F - cellVol6 x F = (signedVol6 x' F - signedVol6 x F)
+      - (V3.dot (vecArea2 x' F) (volRefPoint x' F) - V3.dot (vecArea2 x F) (volRefPoint x F)) := by
+  have h := fun y : Nat → V3 R => (cellVol6_eq y F).trans (centredVol6_general y F)
+  refine ⟨h x, ?_⟩
+  rw [h x, h x']; ring
+
+/-- the vector area Σ (p₁×p₂ + p₂×p₃ + p₃×p₁) of a closed surface is zero for every position of the nodes: the
+    reference-node term of `computed_volume_decomposition` vanishes identically, so does its gradient -/
+theorem vector_area_closed (x : Nat → V3 R) (F : List Face) (hc : Closed F) : vecArea2 x F = 0 :=
+  vecArea2_closed x F hc
+
+/-- `get_volume_reference_point`: the first node of the first used face; the zero vector when no face is used -/
+theorem reference_point_is_first_node (x : Nat → V3 R) (f : Face) (F : List Face) :
+    volRefPoint x (f :: F) = x f.a ∧ volRefPoint x ([] : List Face) = 0 :=
+  ⟨volRefPoint_cons x f F, volRefPoint_nil x⟩
+
+/-- `compute_volume` (the fold of the model) on EVERY face list: the absolute value of Σ (p₁−o)·((p₂−o)×(p₃−o)) / 6,
+    `o` the reference point -/
+theorem volume_is_abs (x : Nat → V3 R) (F : List Face) :
+    cellVolume x F = |signedVol6 (fun i => x i - volRefPoint x F) F / 6| :=
   cellVolume_eq x F
+
+/-- … which for a closed surface is the absolute value of the signed volume Σ p₁·(p₂×p₃) / 6 -/
+theorem volume_is_abs_closed (x : Nat → V3 R) (F : List Face) (hc : Closed F) : cellVolume x F = |signedVol6 x F / 6| := by
+  rw [cellVolume_eq, centredVol6_closed x F hc]
+
+/-- the volume `compute_volume` returns does not depend on where the surface is — for EVERY face list, closed or not
+    (the reference node moves along; no cancellation) -/
+theorem volume_translate_exact (x : Nat → V3 R) (F : List Face) (t : V3 R) :
+    cellVolume (fun i => x i + t) F = cellVolume x F := cellVolume_tr x F t
 
 /-! ### surface tension + membrane elasticity -/
 
@@ -241,6 +286,13 @@ theorem forces_translation_equivariant (fx : FX R) (x : Nat → V3 R) (F : List 
     (hc : Closed F) (t : V3 R) :
     internalContribs fx (fun i => x i + t) F p = internalContribs fx x F p :=
   internalContribs_tr fx x F p hc t
+
+/-- … and closedness is not needed for that: since `compute_volume` takes the coordinates relative to a node of the
+    surface, EVERY face list gives the same scalars (volume, hence pressure and target area) and the same forces wherever
+    it is placed -/
+theorem forces_translation_equivariant_exact (fx : FX R) (x : Nat → V3 R) (F : List Face) (p : Params R) (t : V3 R) :
+    internalContribs fx (fun i => x i + t) F p = internalContribs fx x F p :=
+  internalContribs_tr_exact fx x F p t
 
 /-- rotating the cell by any rotation `M` (linear, dot- and cross-product preserving) rotates every
     internal force by `M` (`FiniteOK`: every scalar is finite) -/
